@@ -359,6 +359,21 @@ func (r *reconstructor) reconstructValue(rv reflect.Value) error {
 			sl := rv.Len()
 			for i := 0; i < sl; i++ {
 				el := rv.Index(i)
+
+				// An element of a slice of `any` that is a placeholder is replaced
+				// by the attachment it stands for (as it is in a map of `any`).
+				if sk == reflect.Interface && el.CanSet() {
+					n, ok := placeholderNum(el.Elem())
+					if ok {
+						n++
+						if n < 1 || n >= len(r.buffers) {
+							return errInvalidPlaceholderNumValue
+						}
+						el.Set(reflect.ValueOf(r.buffers[n]))
+						continue
+					}
+				}
+
 				err := r.reconstructValue(el)
 				if err != nil {
 					return err
@@ -386,6 +401,28 @@ func (r *reconstructor) reconstructValue(rv reflect.Value) error {
 	}
 
 	return nil
+}
+
+// Is mv what JSON decoding into `any` makes of a placeholder, {"_placeholder":true,"num":n}?
+func placeholderNum(mv reflect.Value) (n int, ok bool) {
+	if !mv.IsValid() || mv.Kind() != reflect.Map || mv.Type().Key().Kind() != reflect.String || mv.Len() != 2 {
+		return 0, false
+	}
+	pholder := mv.MapIndex(reflect.ValueOf("_placeholder").Convert(mv.Type().Key()))
+	num := mv.MapIndex(reflect.ValueOf("num").Convert(mv.Type().Key()))
+	if !pholder.IsValid() || !num.IsValid() {
+		return 0, false
+	}
+	if pholder.Kind() == reflect.Interface {
+		pholder = pholder.Elem()
+	}
+	if num.Kind() == reflect.Interface {
+		num = num.Elem()
+	}
+	if pholder.Kind() != reflect.Bool || !pholder.Bool() || num.Kind() != reflect.Float64 {
+		return 0, false
+	}
+	return int(num.Float()), true
 }
 
 func (r *reconstructor) reconstructBinaryValue(
@@ -565,6 +602,12 @@ func (r *reconstructor) reconstructMap(rv reflect.Value) error {
 					return err
 				}
 				continue
+			}
+
+			// Any other slice is walked, as it is everywhere else.
+			err := r.reconstructValue(mv)
+			if err != nil {
+				return err
 			}
 
 		default:
